@@ -501,6 +501,7 @@ func (t *tr) binop(op token.Token, a, b Term, resT types.Type, pos token.Pos, co
 	}
 	var r Term
 	arith := false
+	nlProduct := false
 	switch op {
 	case token.ADD:
 		r, arith = add(a, b), true
@@ -508,6 +509,20 @@ func (t *tr) binop(op token.Token, a, b Term, resT types.Type, pos token.Pos, co
 		r, arith = sub(a, b), true
 	case token.MUL:
 		r, arith = mul(a, b), true
+		if t.nlUninterp() {
+			_, ca := constInt(a)
+			_, cb := constInt(b)
+			if !ca && !cb {
+				// symbolic * symbolic: an uninterpreted product with the facts that matter (see flag nlarith)
+				W.declFun("sf$nlmul", []string{SInt, SInt}, SInt)
+				W.declFun("sf$nldiv", []string{SInt, SInt}, SInt)
+				W.addAxiom("nlmul-div", "(forall ((x Int) (y Int)) (! (=> (> y 0) (and (= (sf$nldiv (sf$nlmul x y) y) x) (=> (>= x 0) (>= (sf$nlmul x y) 0)))) :pattern ((sf$nlmul x y))))")
+				W.addAxiom("nlmul-succ", "(forall ((x Int) (y Int)) (! (= (sf$nlmul (+ x 1) y) (+ (sf$nlmul x y) y)) :pattern ((sf$nlmul (+ x 1) y))))")
+				W.addAxiom("nlmul-zero", "(forall ((y Int)) (! (= (sf$nlmul 0 y) 0) :pattern ((sf$nlmul 0 y))))")
+				r = app("sf$nlmul", SInt, a, b)
+				nlProduct = true
+			}
+		}
 	case token.QUO:
 		if code {
 			t.safety(neq(b, intLit(0)), "safety/div", pos, "integer division by zero")
@@ -573,7 +588,10 @@ func (t *tr) binop(op token.Token, a, b Term, resT types.Type, pos token.Pos, co
 	r.T = resT
 	if resT != nil && isInteger(resT) {
 		if isUnsigned(resT) {
-			if arith {
+			if arith && nlProduct {
+				// byte offsets of elements do not overflow uintptr (assumption of flag nlarith)
+				t.V.note("flag nlarith on " + t.u.Key + ": products of two variables are uninterpreted and assumed not to overflow")
+			} else if arith {
 				r = wrapTo(r, resT)
 			}
 		} else if arith && code && t.checked {
@@ -620,6 +638,12 @@ func (t *tr) convert(x Term, to types.Type, pos token.Pos) Term {
 			return x
 		}
 		if v, ok := constInt(x); ok && v.Cmp(tlo) >= 0 && v.Cmp(thi) <= 0 {
+			x.T = to
+			return x
+		}
+		if t.nlUninterp() && t.cur != nil && isUnsigned(to) && fhi.Cmp(thi) <= 0 {
+			// under flag nlarith, signed -> unsigned conversions are checked instead of wrapped
+			t.assert(ge(x, intLit(0)), "safety/conv", "", pos, "conversion to an unsigned type of a possibly negative value")
 			x.T = to
 			return x
 		}
@@ -751,4 +775,9 @@ func (t *tr) constTerm(v constant.Value, T types.Type) (Term, bool) {
 		return r, true
 	}
 	return Term{}, false
+}
+
+// nlUninterp: the unit asked for uninterpreted nonlinear arithmetic (flag nlarith).
+func (t *tr) nlUninterp() bool {
+	return t.u != nil && t.u.Contract != nil && t.u.Contract.Flags["nlarith"] == "true"
 }
